@@ -1291,8 +1291,14 @@ fn drive_bulk(tr: &mut Tracer, c: &mut Counters, a: &Args, name: &str, thorough:
         for &n in &sizes {
             // every size with the two irregular profiles; the regular ones and the 64 KiB
             // record (x compression level 9 adds up) with a few sizes
-            let few: &[usize] = if *p == "big_first" { &[1, 65, 129] } else { &[0, 1, 65, 256, 513] };
-            if !["mixed16", "ragged"].contains(p) && !few.contains(&n) && !(thorough && *p != "big_first") {
+            let few: &[usize] = if *p == "big_first" {
+                &[1, 65, 129]
+            } else if thorough {
+                &[0, 1, 2, 64, 65, 128, 256, 257, 513, 1025]
+            } else {
+                &[0, 1, 65, 256, 513]
+            };
+            if !["mixed16", "ragged"].contains(p) && !few.contains(&n) {
                 continue;
             }
             bulk_run(tr, c, a, name, p, n);
